@@ -209,6 +209,9 @@ func pristine(p callPlan) bool {
 	if p.Hole > 0 || p.Cancel {
 		return false
 	}
+	if p.Sized && (p.ReqSize > pristineMaxBytes || p.RespSize > pristineMaxBytes) {
+		return false // moving megabytes takes its time on a loaded machine: "answered at once" does not describe such a call
+	}
 	for _, a := range p.Att {
 		if a.LatUs > 2000 || a.Dir != dirNone || a.DupBefore || a.DupAfter > 0 {
 			return false
@@ -315,6 +318,7 @@ func drawStalled(t *rapid.T) *workload {
 		w.Calls = append(w.Calls[:pos], append([]callPlan{c}, w.Calls[pos:]...)...)
 	}
 	addTwins(t, w, tUs/8, tUs/4, 0)
+	addSizes(t, w)
 	return w
 }
 
